@@ -253,10 +253,10 @@ theorem fracPart_clean {inp v : List Nat} {n : Nat} {v' : List Nat} {n' : Nat}
       simp [cleanFloat]
   · simp at h; obtain ⟨rfl, rfl⟩ := h; exact hv
 
-theorem expPart_clean {inp v : List Nat} {n : Nat} {v' : List Nat} {n' : Nat}
-    (hv : cleanFloat (inp.take n) = v) (h : expPart v n (inp.drop n) = .ok (v', n')) :
+theorem expPartBody_clean {inp v : List Nat} {n : Nat} {v' : List Nat} {n' : Nat}
+    (hv : cleanFloat (inp.take n) = v) (h : expPartBody v n (inp.drop n) = .ok (v', n')) :
     cleanFloat (inp.take n') = v' := by
-  unfold expPart at h
+  unfold expPartBody at h
   split at h
   · rename_i e rest hdrop
     split at h
@@ -298,6 +298,14 @@ theorem expPart_clean {inp v : List Nat} {n : Nat} {v' : List Nat} {n' : Nat}
           rw [List.take_add, hdrop, cleanFloat_append, hv]
           rcases he with rfl | rfl <;> simp [cleanFloat]
     · simp at h; obtain ⟨rfl, rfl⟩ := h; exact hv
+  · simp at h; obtain ⟨rfl, rfl⟩ := h; exact hv
+
+theorem expPart_clean {inp v : List Nat} {n : Nat} {v' : List Nat} {n' : Nat}
+    (hv : cleanFloat (inp.take n) = v) (h : expPart v n (inp.drop n) = .ok (v', n')) :
+    cleanFloat (inp.take n') = v' := by
+  unfold expPart at h
+  split at h
+  · exact expPartBody_clean hv h
   · simp at h; obtain ⟨rfl, rfl⟩ := h; exact hv
 
 theorem floatTail_spells {inp : List Nat} {tok : Tok} {m : Nat}
